@@ -2,6 +2,7 @@
 import re
 
 from ..core.engine import Res
+from ..core.rules import exhaustive_loop
 from ..core.rules import (who_calls, wire, guard, install, order, pair, field_discipline, arm_wiring, must_pass,
                           assigns)
 from ..core.origins import Origins
@@ -25,6 +26,7 @@ ASSUMPTIONS = ['KDF outputs for distinct (secret, label, generation) are distinc
 
 def run(ctx):
     P = ctx.P
+    ctx.check('EXHAUSTIVE-LOOP', 'every node on the way down to the leaf is consumed', lambda P_: exhaustive_loop(P_, 'SecretTree::take_leaf_ratchet'), floor=1)
     cfg = ctx.config
     ctx.check('WHO-CALLS', 'aead_seal callers',
               lambda P_: who_calls(P_, r'CipherSuiteProvider::aead_seal$', [r'^MessageKey::encrypt$', r'^SenderDataKey::seal$', r'^WelcomeSecret::encrypt$'],
